@@ -18,6 +18,9 @@
 (*   "A4doc"   : content of the selected transitions runs in document order *)
 (*               of the transitions (3.13 prose) rather than in the order   *)
 (*               of the atomic states that selected them (Appendix D)       *)
+(*   "static"  : NOT an ambiguity of the Recommendation -- the conflict     *)
+(*               relation of uSCXML (see Conflicts); used only to give a    *)
+(*               deviation its exact root cause (DESIGN.md 5, C04)          *)
 (***************************************************************************)
 EXTENDS ScxmlContent
 
@@ -96,13 +99,26 @@ SelectFrom(c, M, ev, atomics, i, enabled) ==
              e2 == IF r.t # 0 /\ ~Contains(enabled, r.t) THEN Append(enabled, r.t) ELSE enabled
          IN  SelectFrom(c, r.M, ev, atomics, i + 1, e2)
 
+(* Two transitions conflict iff their exit sets intersect (Appendix D).        *)
+(* Variant "static": additionally when their sources are equal or ancestor-   *)
+(* related -- the conflict relation uSCXML's engines and transpilers use      *)
+(* (FastMicroStep.cpp:697ff, ChartToC::prepare); it differs from Appendix D    *)
+(* exactly when a targetless (or otherwise non-overlapping) transition of an  *)
+(* ancestor is selected together with a descendant's transition.              *)
+Conflicts(c, M, t1, t2) ==
+    \/ ExitSet1(c, M, t1) \cap ExitSet1(c, M, t2) # {}
+    \/ /\ "static" \in Variants
+       /\ LET s1 == c.trans[t1].src
+              s2 == c.trans[t2].src
+          IN  s1 = s2 \/ IsDescendant(c, s1, s2) \/ IsDescendant(c, s2, s1)
+
 (* removeConflictingTransitions *)
 RECURSIVE RCTInner(_, _, _, _, _, _)
 \* scan `filtered' for conflicts with t1; result [pre |-> preempted, rem |-> toRemove]
 RCTInner(c, M, t1, filtered, j, rem) ==
     IF j > Len(filtered) THEN [pre |-> FALSE, rem |-> rem]
     ELSE LET t2 == filtered[j] IN
-         IF ExitSet1(c, M, t1) \cap ExitSet1(c, M, t2) # {}
+         IF Conflicts(c, M, t1, t2)
          THEN IF IsDescendant(c, c.trans[t1].src, c.trans[t2].src)
               THEN RCTInner(c, M, t1, filtered, j + 1, rem \cup {t2})
               ELSE [pre |-> TRUE, rem |-> rem]
